@@ -142,5 +142,21 @@ hard_ok = hm.mask.tolist() == [False, True, False] and hm.data[1] == 2.0
 hm.soften_mask()
 hm[np.array([False, True, False])] = 7.0
 check("A26 a hard mask keeps missing cells through item stores; soften_mask() restores A9", hard_ok and hm.mask.tolist() == [False, False, False])
+tm = ma.array([1.0, 2.0, 3.0], mask=[False, False, False])
+ym = ma.array([5.0, 6.0, 7.0], mask=[True, False, False])
+tm[ma.getmask(ym)] = ma.masked
+check("A27 x[getmask(y)] = masked marks x missing where y is and leaves the data alone; nomask / is_masked tell a mask-free array", tm.mask.tolist() == [True, False, False] and tm.data.tolist() == [1.0, 2.0, 3.0] and ma.getmask(ma.array([1.0])) is ma.nomask and not ma.is_masked(ma.array([1.0, 2.0])))
+g1 = ma.array(np.arange(6.0).reshape(2, 3), mask=[[False, True, False], [False, False, False]])
+g2 = ma.array(np.arange(6.0).reshape(2, 3) * 10, mask=np.zeros((2, 3), bool))
+stk = ma.stack([g1, g2])
+flat = stk.reshape(2, g1.size)
+w2 = np.array([2.0, 0.5])
+dd = ma.dot(w2, flat, strict=True).reshape(g1.shape)
+ref = g1 * 2.0 + g2 * 0.5
+col = w2.reshape((-1,) + (1,) * (stk.ndim - 1))
+ss = sum(stk * col)
+check("A28 ravel/reshape round trip, dot over the flattened stack (strict), per-layer broadcast and sum(stack) agree with the layer-by-layer sum",
+      np.array_equal(g1.ravel().reshape(g1.shape).data, g1.data) and np.allclose(dd.filled(-1), ref.filled(-1)) and dd.mask.tolist() == ref.mask.tolist()
+      and np.allclose(ss.filled(-1), ref.filled(-1)) and ss.mask.tolist() == ref.mask.tolist() and not ma.dot(w2, flat, strict=False).reshape(g1.shape).mask.any())
 print("%d axiom check(s) failed" % len(FAIL))
 sys.exit(1 if FAIL else 0)
